@@ -99,17 +99,26 @@ Definition llabel (l : label) : bool :=
 Definition listener_labels : list label :=
   [LRecv; LRecvClosed; LCtx; LSend; LSkip; LCancel; LClose; LHook].
 
+(** UnmarshalReply of the JSON marshaler (backend_pubsub_marshaler.go l.44-58), [jd] = json.Unmarshal of the
+    payload into the result type (None = error): the error comes from the has_error flag and the error text *)
+Definition unm_json (jd : N -> option N) (n : notif) : option (N * option N) :=
+  match jd (n_pay n) with
+  | None => None
+  | Some v => Some (v, if n_haserr n then Some (n_err n) else None)
+  end.
+
 Section Listen.
-  (** encoding/json: json.Unmarshal(payload, &result); None = error *)
-  Context (dec : N -> option N).
+  (** marshaler.UnmarshalReply of the configured BackendPubsubMarshaler - ANY marshaler: the message as far as
+      it is looked at -> (HandlerResult, Error text) or None = it returned an error.  [unm_json] is the JSON one. *)
+  Context (dec : notif -> option (N * option N)).
 
   Definition own (c : cfg) (n : notif) : bool := N.eqb (n_op n) (opid c).
 
   (** UnmarshalReply + the reply the listener builds from an own notification *)
   Definition reply_of (n : notif) : reply :=
-    match dec (n_pay n) with
+    match dec n with
     | None => RUnmarshal
-    | Some v => ROwn v (if n_haserr n then Some (n_err n) else None) (n_id n)
+    | Some (v, e) => ROwn v e (n_id n)
     end.
 
   Definition own_replies (c : cfg) (l : list notif) : list reply :=
